@@ -21,6 +21,8 @@ func alphabet() []string {
 		"regnode n1", "regnode n2", "regnode n3", "regnode n4",
 		"regpipe t1 p1 n1,n2,n3", "regpipe t1 p2 n2,n4", "regpipe t2 p1 n2,n3", "regpipe t3 p1 n1,n2,n4",
 		"regpipe t1 p3 n2,n3", "regpipe t1 p4 n2,n2,n3",
+		// a "tee": nodes follow a sink (n5 is a formatter-filter); an id removed and registered again
+		"regnode n5", "regpipe t2 p2 n2,n3,n5,n4", "rmnode n3", "rmnode n4",
 		"rmpipe t1 p1", "rmpipenodes t2 p1", "rmpipe t3 p1", "rmpipenodes t1 p2",
 		"reopen", "reopenx", "reopenfail n1", "reopenfail n2", "reopenfail n3", "reopenfail n4",
 	}
